@@ -328,7 +328,8 @@ func runC08Case(cc C08Case) (*Fail, c08Stats, error) {
 			return nil, stt, err
 		}
 		if err := e.S.Open(); err != nil {
-			return nil, stt, err
+			// the pre-state was built by accepted operations and closed cleanly: it reopens
+			return fail("C08|prestate|clean-close-then-open-fails", fmt.Sprintf("a directory built by %d accepted operations and closed normally does not open again: %v", len(pre.Ops), err), "C08", "C12"), stt, nil
 		}
 		e.fixDrainer()
 		e.S.SetReplicaMode(e.M.Mode)
